@@ -208,7 +208,7 @@ var c10Replacements = []struct {
 }
 
 // c10Inflate are claimed lengths / counts used for nested-length inflation.
-var c10Inflate = []uint64{1, 23, 24, 255, 256, 65535, 65536, 99999, 100000, 100001, 1 << 24, 1<<32 - 1, 1 << 32, 1 << 40, 1<<63 - 1, 1 << 63, math.MaxUint64}
+var c10Inflate = []uint64{1, 23, 24, 255, 256, 49998, 49999, 50000, 65535, 65536, 99998, 99999, 100000, 100001, 1 << 24, 1<<32 - 1, 1 << 32, 1 << 40, 1<<63 - 1, 1 << 63, math.MaxUint64}
 
 // c10Structural derives every single-node mutant of a valid message.
 func c10Structural(valid []byte) []c10Mutant {
